@@ -1,4 +1,4 @@
-INIT Init
-NEXT Next
-INVARIANT Report
+INIT VmInit
+NEXT VmNext
+INVARIANT VmReport
 CHECK_DEADLOCK FALSE
